@@ -23,6 +23,8 @@
                 `c16_import_export_reward_partial_reachable`  every history: no panic, everything comes back, the
                                              by-category index re-filed under the current promoter uids
                 `c16_validate_export_reward_reachable`        every history, both variants: the export validates
+                Repaired `CreatePromoter` (model flag `promoterFixed`, upstream fix "one promoter per address"):
+                `rewardInv_reachable_fixed`, `c16_import_export_reward_reachable_fixed`  EVERY history, no hypothesis.
 -/
 import SgeProofs.Properties.C16
 import SgeProofs.Lemmas.GenesisReachMods
@@ -347,8 +349,11 @@ def grm_rewardCexStores : RewardStores :=
     re-derives the promoter uid from the reward's campaign's promoter address and files them under 8: the conjunct
     "by-category index is filed under the promoter of the reward's campaign" is false, and import (export σ) ≠ σ —
     after a restart the reward counts against the category cap of promoter 8 instead of promoter 7.
-    All other conjuncts hold (`rewardInv_partial`) and the export validates. -/
+    All other conjuncts hold (`rewardInv_partial`) and the export validates.
+    Stated for the tree as given (`promoterFixed = false`); the defect is repaired by
+    repo_patches / the upstream fix "one promoter per address" (`promoterFixed = true`): `rewardInv_reachable_fixed`. -/
 theorem rewardInv_reachable_counterexample :
+    (grm_rewardInit false false grm_bal).promoterFixed = false ∧
     Sge.Reward.grm_freshRun (grm_rewardInit false false grm_bal) grm_rewardCexOps = false ∧
     grm_rewardCexStores.promoters.map (·.1) = [7, 8] ∧ grm_rewardCexStores.byAddress = [(1, 8)] ∧
     grm_rewardCexStores.byCategory = [{ promoterUid := 7, receiver := 3, category := 1, uid := 30 }] ∧
@@ -369,6 +374,58 @@ example : importReward true (exportReward true grm_rewardCexStores) =
 theorem rewardInv_reachable_counterexample_patched :
     rewardInv (grm_stores grm_dg (Sge.Reward.run (grm_rewardInit true true grm_bal) grm_rewardCexOps)) = false := by
   decide +kernel
+
+-- ---------------------------------------------------------------------------------------------
+-- the repaired variant: `CreatePromoter` refuses an address that already belongs to a promoter (`promoterFixed`)
+
+/-- `grm_rewardInit` with the third variant flag of the model selectable -/
+def grm_rewardInit' (fixed codecFixed promoterFixed : Bool) (bal : Nat → Int) : Sge.Reward.State :=
+  { Sge.Reward.init fixed bal with codecFixed := codecFixed, promoterFixed := promoterFixed }
+
+/-- the tree as given is the variant `promoterFixed = false` -/
+theorem grm_rewardInit_eq (fixed codecFixed : Bool) (bal : Nat → Int) :
+    grm_rewardInit fixed codecFixed bal = grm_rewardInit' fixed codecFixed false bal := rfl
+
+/-- the three variant flags are constants of every history -/
+theorem grm_reward_flags_run (fixed codecFixed promoterFixed : Bool) (bal : Nat → Int) (ops : List Sge.Reward.Op) :
+    let s := Sge.Reward.run (grm_rewardInit' fixed codecFixed promoterFixed bal) ops
+    s.fixed = fixed ∧ s.codecFixed = codecFixed ∧ s.promoterFixed = promoterFixed :=
+  Sge.Reward.grm_run_flags (grm_rewardInit' fixed codecFixed promoterFixed bal) ops
+
+/-- C16 reach, reward, repaired `CreatePromoter`: `rewardInv` holds after EVERY history — no hypothesis on the
+    promoters: a successful `createPromoter` now implies that the sender had no promoter-by-address record, so the
+    record a by-category entry was filed under is never overwritten. -/
+theorem rewardInv_reachable_fixed (d : grm_Digests) (fixed codecFixed : Bool) (bal : Nat → Int) (ops : List Sge.Reward.Op) :
+    rewardInv (grm_stores d (Sge.Reward.run (grm_rewardInit' fixed codecFixed true bal) ops)) = true :=
+  grm_rewardInv_of d _ (Sge.Reward.grm_rwI_run ops (Sge.Reward.grm_rwI_init' fixed codecFixed true bal))
+    (Sge.Reward.grm_catOK_run_fixed ops (by intro y hy; cases hy) rfl)
+
+/-- C16 reward, patched genesis code on the repaired `CreatePromoter`, EVERY reachable state: all seven collections
+    come back after export + import. -/
+theorem c16_import_export_reward_reachable_fixed (d : grm_Digests) (fixed codecFixed : Bool) (bal : Nat → Int)
+    (ops : List Sge.Reward.Op) :
+    let st := grm_stores d (Sge.Reward.run (grm_rewardInit' fixed codecFixed true bal) ops)
+    importReward true (exportReward true st) = some st :=
+  c16_import_export_reward _ (rewardInv_reachable_fixed d fixed codecFixed bal ops)
+
+/-- … and the export validates (both variants of the genesis code). -/
+theorem c16_validate_export_reward_reachable_fixed (gfixed : Bool) (d : grm_Digests) (fixed codecFixed : Bool)
+    (bal : Nat → Int) (ops : List Sge.Reward.Op) :
+    validateReward (exportReward gfixed (grm_stores d (Sge.Reward.run (grm_rewardInit' fixed codecFixed true bal) ops))) = 0 := by
+  have hI := Sge.Reward.grm_rwI_run ops (Sge.Reward.grm_rwI_init' fixed codecFixed true bal)
+  obtain ⟨_, _, hc, hr, _, _, _⟩ := grm_rewardInv_partial_of d _ hI
+  obtain ⟨h3, h4⟩ := grm_index_uids d _ hI
+  exact grm_validate_export_reward gfixed _ hc hr h3 h4
+
+/-- the history of the counter-example on the repaired variant: the second `createPromoter` of address 1 is refused,
+    the promoter-by-address record stays (1, 7) and `rewardInv` holds -/
+example :
+    (grm_stores grm_dg (Sge.Reward.run (grm_rewardInit' false false true grm_bal) grm_rewardCexOps)).byAddress = [(1, 7)] ∧
+    rewardInv (grm_stores grm_dg (Sge.Reward.run (grm_rewardInit' false false true grm_bal) grm_rewardCexOps)) = true := by
+  decide +kernel
+
+example : rewardInv (grm_stores grm_dg (Sge.Reward.run (grm_rewardInit' false false true grm_bal) grm_rewardCexOps)) = true :=
+  rewardInv_reachable_fixed grm_dg false false grm_bal grm_rewardCexOps
 
 -- ---------------------------------------------------------------------------------------------
 -- non-vacuity
